@@ -1,1 +1,620 @@
-pub mod placeholder {}
+//! THREAD: lock-granularity schedule explorer for the synchronous index
+//! crates (`anda_db_btree`, `anda_db_tfs`).
+//!
+//! loom / shuttle cannot see the `DashMap` and `parking_lot` locks those
+//! crates use, so the real code runs on real OS threads, **exactly one at a
+//! time**. The crates carry cfg-guarded yield points
+//! (`anda_db_utils::verif_point!`) immediately before every lock acquisition
+//! / atomic read-modify-write of their mutators, always at places where the
+//! thread holds no shard guard and no `btree`/`metadata` lock. A thread that
+//! reaches a point takes the scheduling decision itself (under the engine's
+//! lock, asking the [`Chooser`] which thread runs next): continuing costs no
+//! context switch, a real switch wakes the chosen thread and parks this one.
+//! The one lock that is held across points (`mutation_gate`) is hooked as a
+//! *visible wait* (`verif_wait!(tag, || predicate)`): the thread is parked
+//! and counts as enabled only while its predicate holds; predicates are
+//! evaluated at decision time, while every worker is parked, which is safe
+//! because nobody runs.
+//!
+//! Safe Rust plus these libraries is data-race free and every shared access
+//! sits inside a lock-protected section or an atomic, so an interleaving of
+//! the sections between points is an interleaving of the program under
+//! sequential consistency. Not modelled: weak-memory reorderings of `Relaxed`
+//! atomics.
+//!
+//! One call of [`run_threads`] = one execution. Put it inside the `run_one`
+//! closure of [`crate::choice::explore`] to enumerate all schedules up to a
+//! preemption bound (same option order and costs as `step::Sched::options`).
+
+use crate::choice::Chooser;
+use anda_db_utils::verif::{Scheduler, install_scheduler};
+use parking_lot::{Condvar, Mutex};
+use std::any::Any;
+use std::panic::{AssertUnwindSafe, catch_unwind, resume_unwind};
+use std::sync::Arc;
+use std::time::Duration;
+
+/// Tag of the implicit point every worker is parked at before its closure
+/// starts.
+pub const START: &str = "start";
+
+#[derive(Clone, Copy, Debug, PartialEq, Eq)]
+enum St {
+    /// Spawned, has not reached its start point yet.
+    Spawning,
+    /// Parked at a plain point: enabled.
+    AtPoint,
+    /// Parked in a visible wait: enabled iff its predicate holds.
+    Waiting,
+    Running,
+    Finished,
+}
+
+/// Borrowed predicate of a parked worker. Only dereferenced by whoever takes
+/// the scheduling decision, under the state lock, while that worker is parked
+/// inside `wait_until` (the borrow is alive) and no worker runs.
+struct PredPtr(*const (dyn Fn() -> bool + 'static));
+unsafe impl Send for PredPtr {}
+
+type Observer<'a> = dyn FnMut(&[(u8, &'static str)]) + Send + 'a;
+
+/// The caller's chooser and observer, lent to the workers for the duration of
+/// one execution (the caller blocks meanwhile; access is serialised by the
+/// state lock).
+struct Lent {
+    chooser: *mut Chooser,
+    observer: *mut Observer<'static>,
+}
+unsafe impl Send for Lent {}
+
+struct Slot {
+    st: St,
+    tag: &'static str,
+    pred: Option<PredPtr>,
+    /// Message of a genuine panic of the worker closure.
+    panic: Option<String>,
+}
+
+struct State {
+    slots: Vec<Slot>,
+    /// The one worker that is allowed to run right now.
+    running: Option<usize>,
+    last: Option<usize>,
+    started: bool,
+    /// Tear-down: a resumed worker unwinds instead of continuing.
+    abort: bool,
+    end: Option<ExecEnd>,
+    /// Every worker finished; the caller may collect the result.
+    done: bool,
+    trace: Vec<(u8, &'static str)>,
+    /// Bumped at every park / finish (watchdog progress).
+    progress: u64,
+    max_steps: usize,
+    lent: Lent,
+}
+
+struct Shared {
+    state: Mutex<State>,
+    ctl: Condvar,
+    wake: Vec<Condvar>,
+}
+
+/// Payload used to unwind a parked worker during tear-down.
+struct AbortExecution;
+
+thread_local! {
+    /// Set while this thread takes a scheduling decision: a yield point
+    /// reached from the observer or a predicate must not park.
+    static DECIDING: std::cell::Cell<bool> = const { std::cell::Cell::new(false) };
+}
+
+/// Takes the next scheduling decision. Called with the state lock held by the
+/// thread that just parked or finished (nobody runs). There is no controller
+/// thread: continuing the same thread costs no context switch at all, only a
+/// real switch wakes another OS thread.
+fn decide(sh: &Shared, g: &mut State) {
+    DECIDING.with(|d| d.set(true));
+    decide_inner(sh, g);
+    DECIDING.with(|d| d.set(false));
+}
+
+fn decide_inner(sh: &Shared, g: &mut State) {
+    let n = g.slots.len();
+    loop {
+        if g.end.is_some() {
+            // Tear-down: release the unfinished workers one at a time; each
+            // unwinds and calls `decide` again when it has finished.
+            match g.slots.iter().position(|s| s.st != St::Finished) {
+                Some(t) => {
+                    g.abort = true;
+                    g.running = Some(t);
+                    sh.wake[t].notify_one();
+                }
+                None => {
+                    g.done = true;
+                    sh.ctl.notify_one();
+                }
+            }
+            return;
+        }
+        if let Some(t) = g.slots.iter().position(|s| s.panic.is_some()) {
+            g.end = Some(ExecEnd::Panic {
+                thread: t,
+                message: g.slots[t].panic.clone().unwrap_or_default(),
+            });
+            continue;
+        }
+        // Safety: the lender blocks in `run_threads_observed` until `done`.
+        unsafe { (*g.lent.observer)(&g.trace) };
+        let enabled: Vec<usize> = (0..n)
+            .filter(|&t| match g.slots[t].st {
+                St::AtPoint => true,
+                St::Waiting => match &g.slots[t].pred {
+                    // Safety: worker `t` is parked inside `wait_until`.
+                    Some(p) => unsafe { (*p.0)() },
+                    None => true,
+                },
+                _ => false,
+            })
+            .collect();
+        if enabled.is_empty() {
+            if g.slots.iter().all(|s| s.st == St::Finished) {
+                g.end = Some(ExecEnd::AllDone);
+            } else {
+                g.end = Some(ExecEnd::Deadlock(
+                    (0..n)
+                        .filter(|&t| g.slots[t].st != St::Finished)
+                        .map(|t| (t, g.slots[t].tag))
+                        .collect(),
+                ));
+            }
+            continue;
+        }
+        if g.trace.len() >= g.max_steps {
+            g.end = Some(ExecEnd::StepLimit);
+            continue;
+        }
+        // Same option order / costs as `step::Sched::options`.
+        let cont = g.last.filter(|l| enabled.contains(l));
+        let mut opts = Vec::with_capacity(enabled.len());
+        let mut costs: Vec<u8> = Vec::with_capacity(enabled.len());
+        if let Some(l) = cont {
+            opts.push(l);
+            costs.push(0);
+        }
+        for &t in &enabled {
+            if Some(t) != cont {
+                opts.push(t);
+                costs.push(if cont.is_some() { 1 } else { 0 });
+            }
+        }
+        let pick = if opts.len() == 1 {
+            0
+        } else {
+            // Safety: as for the observer.
+            unsafe { (*g.lent.chooser).choose(&costs) }
+        };
+        let t = opts[pick];
+        let tag = g.slots[t].tag;
+        g.trace.push((t as u8, tag));
+        g.last = Some(t);
+        g.running = Some(t);
+        sh.wake[t].notify_one();
+        return;
+    }
+}
+
+struct Handle {
+    shared: Arc<Shared>,
+    me: usize,
+}
+
+impl Handle {
+    fn park(&self, st: St, tag: &'static str, pred: Option<PredPtr>) {
+        // A point reached while unwinding (a Drop impl), or from inside a
+        // scheduling decision (observer / predicate), must not park.
+        if std::thread::panicking() || DECIDING.with(|d| d.get()) {
+            return;
+        }
+        let sh = &*self.shared;
+        let mut g = sh.state.lock();
+        g.progress += 1;
+        {
+            let slot = &mut g.slots[self.me];
+            slot.st = st;
+            slot.tag = tag;
+            slot.pred = pred;
+        }
+        if g.running == Some(self.me) {
+            g.running = None;
+            decide(sh, &mut g);
+        } else if !g.started && g.slots.iter().all(|s| s.st != St::Spawning) {
+            // Last worker to arrive at its start point.
+            g.started = true;
+            decide(sh, &mut g);
+        }
+        while g.running != Some(self.me) {
+            sh.wake[self.me].wait(&mut g);
+        }
+        let slot = &mut g.slots[self.me];
+        slot.st = St::Running;
+        slot.pred = None;
+        let abort = g.abort;
+        drop(g);
+        if abort {
+            resume_unwind(Box::new(AbortExecution));
+        }
+    }
+
+    fn finish(&self, panic: Option<String>) {
+        let sh = &*self.shared;
+        let mut g = sh.state.lock();
+        g.progress += 1;
+        let slot = &mut g.slots[self.me];
+        slot.st = St::Finished;
+        slot.pred = None;
+        slot.panic = panic;
+        if g.running == Some(self.me) {
+            g.running = None;
+        }
+        if g.started || g.slots.iter().all(|s| s.st != St::Spawning) {
+            g.started = true;
+            decide(sh, &mut g);
+        }
+    }
+}
+
+impl Scheduler for Handle {
+    fn point(&self, tag: &'static str) {
+        self.park(St::AtPoint, tag, None);
+    }
+
+    fn wait_until(&self, tag: &'static str, pred: &dyn Fn() -> bool) {
+        // Lifetime erasure: see `PredPtr`.
+        let ptr: *const (dyn Fn() -> bool + '_) = pred;
+        let ptr: *const (dyn Fn() -> bool + 'static) = unsafe { std::mem::transmute(ptr) };
+        self.park(St::Waiting, tag, Some(PredPtr(ptr)));
+    }
+}
+
+#[derive(Clone, Debug, PartialEq, Eq)]
+pub enum ExecEnd {
+    AllDone,
+    /// Nobody enabled; the listed `(thread, tag)` are parked in a wait whose
+    /// predicate is false.
+    Deadlock(Vec<(usize, &'static str)>),
+    /// A worker closure panicked (the others were torn down).
+    Panic { thread: usize, message: String },
+    /// More than `max_steps` scheduling steps (livelock guard).
+    StepLimit,
+}
+
+#[derive(Clone, Debug)]
+pub struct ExecResult<T> {
+    pub end: ExecEnd,
+    /// One entry per scheduling step: the thread resumed and the tag of the
+    /// point it was resumed from.
+    pub trace: Vec<(u8, &'static str)>,
+    /// Return values of the worker closures (`None`: panicked / torn down).
+    pub outputs: Vec<Option<T>>,
+}
+
+impl<T> ExecResult<T> {
+    /// Compact rendering `0:start 0:insert:postings 1:start ...`.
+    pub fn trace_string(&self) -> String {
+        render_trace(&self.trace)
+    }
+}
+
+pub fn render_trace(trace: &[(u8, &'static str)]) -> String {
+    let mut s = String::new();
+    for (i, (t, tag)) in trace.iter().enumerate() {
+        if i > 0 {
+            s.push(' ');
+        }
+        s.push_str(&format!("{t}:{tag}"));
+    }
+    s
+}
+
+#[derive(Clone, Copy, Debug)]
+pub struct ExecConfig {
+    /// A running worker that neither parks nor finishes within this time is a
+    /// machinery error (a yield point placed under a real lock, or an endless
+    /// loop) — the process exits with code 2.
+    pub watchdog: Duration,
+    pub max_steps: usize,
+}
+
+impl Default for ExecConfig {
+    fn default() -> Self {
+        let secs = std::env::var("VERIF_THREAD_WATCHDOG_S")
+            .ok()
+            .and_then(|v| v.parse::<u64>().ok())
+            .unwrap_or(10);
+        ExecConfig {
+            watchdog: Duration::from_secs(secs),
+            max_steps: 100_000,
+        }
+    }
+}
+
+pub type Body<'a, T> = Box<dyn FnOnce() -> T + Send + 'a>;
+
+fn panic_message(p: &(dyn Any + Send)) -> String {
+    if let Some(s) = p.downcast_ref::<&'static str>() {
+        s.to_string()
+    } else if let Some(s) = p.downcast_ref::<String>() {
+        s.clone()
+    } else {
+        "non-string panic payload".to_string()
+    }
+}
+
+/// Silences the default panic report for worker threads of this engine
+/// (seeded breaks can panic in thousands of executions). Other threads keep
+/// the previous hook.
+pub fn quiet_worker_panics() {
+    let prev = std::panic::take_hook();
+    std::panic::set_hook(Box::new(move |info| {
+        let worker = std::thread::current()
+            .name()
+            .map(|n| n.starts_with("vthread-"))
+            .unwrap_or(false);
+        if !worker {
+            prev(info);
+        }
+    }));
+}
+
+/// Runs ONE execution: every body on its own OS thread, one thread at a time,
+/// the schedule decided by `chooser`.
+pub fn run_threads<'a, T: Send + 'a>(
+    chooser: &mut Chooser,
+    bodies: Vec<Body<'a, T>>,
+    cfg: ExecConfig,
+) -> ExecResult<T> {
+    run_threads_observed(chooser, bodies, cfg, &mut |_| {})
+}
+
+/// Like [`run_threads`]; `observer(trace_so_far)` is called before every
+/// scheduling decision, while every worker is parked or finished — it may
+/// query the shared fixture ("at any moment" invariants) because parked
+/// workers hold no lock except `mutation_gate`. It runs on whichever thread
+/// takes the decision (hence `Send`).
+pub fn run_threads_observed<'a, T: Send + 'a>(
+    chooser: &mut Chooser,
+    bodies: Vec<Body<'a, T>>,
+    cfg: ExecConfig,
+    observer: &mut Observer<'_>,
+) -> ExecResult<T> {
+    let n = bodies.len();
+    assert!(n > 0 && n < 200, "run_threads: 1..200 threads");
+    let observer: *mut Observer<'_> = observer;
+    let lent = Lent {
+        chooser: chooser as *mut Chooser,
+        // Lifetime erasure: the pointer is only used until `done`.
+        observer: unsafe { std::mem::transmute::<*mut Observer<'_>, *mut Observer<'static>>(observer) },
+    };
+    let shared = Arc::new(Shared {
+        state: Mutex::new(State {
+            slots: (0..n)
+                .map(|_| Slot {
+                    st: St::Spawning,
+                    tag: START,
+                    pred: None,
+                    panic: None,
+                })
+                .collect(),
+            running: None,
+            last: None,
+            started: false,
+            abort: false,
+            end: None,
+            done: false,
+            trace: Vec::new(),
+            progress: 0,
+            max_steps: cfg.max_steps,
+            lent,
+        }),
+        ctl: Condvar::new(),
+        wake: (0..n).map(|_| Condvar::new()).collect(),
+    });
+    let outputs: Vec<Mutex<Option<T>>> = (0..n).map(|_| Mutex::new(None)).collect();
+
+    std::thread::scope(|scope| {
+        for (me, body) in bodies.into_iter().enumerate() {
+            let shared = shared.clone();
+            let out = &outputs[me];
+            std::thread::Builder::new()
+                .name(format!("vthread-{me}"))
+                .stack_size(1 << 20)
+                .spawn_scoped(scope, move || {
+                    let handle = Arc::new(Handle { shared, me });
+                    install_scheduler(Some(handle.clone() as Arc<dyn Scheduler>));
+                    let r = catch_unwind(AssertUnwindSafe(|| {
+                        handle.park(St::AtPoint, START, None);
+                        body()
+                    }));
+                    install_scheduler(None);
+                    let mut panic = None;
+                    match r {
+                        Ok(v) => *out.lock() = Some(v),
+                        Err(p) => {
+                            if !p.is::<AbortExecution>() {
+                                panic = Some(panic_message(&*p));
+                            }
+                        }
+                    }
+                    handle.finish(panic);
+                })
+                .unwrap_or_else(|e| crate::report::machinery(&format!("THREAD: cannot spawn worker: {e}")));
+        }
+
+        // The caller only waits; the watchdog fires when no worker parks or
+        // finishes for `cfg.watchdog`.
+        let mut g = shared.state.lock();
+        let mut seen = g.progress;
+        while !g.done {
+            if shared.ctl.wait_for(&mut g, cfg.watchdog).timed_out() && !g.done {
+                if g.progress == seen {
+                    crate::report::machinery(&format!(
+                        "THREAD watchdog: worker {:?} neither parked nor finished within {:?}; trace so far: {}",
+                        g.running,
+                        cfg.watchdog,
+                        render_trace(&g.trace)
+                    ));
+                }
+                seen = g.progress;
+            }
+        }
+    });
+
+    let mut g = shared.state.lock();
+    ExecResult {
+        end: g.end.take().unwrap_or(ExecEnd::AllDone),
+        trace: std::mem::take(&mut g.trace),
+        outputs: outputs.into_iter().map(|m| m.into_inner()).collect(),
+    }
+}
+
+/// Determinism self-check: runs the execution selected by `choices` twice and
+/// compares the `(thread, tag)` traces, the choice lists and `digest` of the
+/// results. `Err` = uncontrolled nondeterminism (machinery error, exit 2).
+pub fn check_replay<T>(
+    choices: &[u32],
+    run: impl Fn(&mut Chooser) -> (ExecResult<T>, String),
+) -> Result<(), String> {
+    let mut a = Chooser::new(choices.to_vec());
+    let (ra, da) = run(&mut a);
+    let mut b = Chooser::new(choices.to_vec());
+    let (rb, db) = run(&mut b);
+    if let Some(d) = a.diverged.as_ref().or(b.diverged.as_ref()) {
+        return Err(format!("choice list {choices:?} cannot be replayed: {d}"));
+    }
+    if a.choices() != b.choices() {
+        return Err(format!(
+            "choice list {choices:?}: replay took different decisions {:?} vs {:?}",
+            a.choices(),
+            b.choices()
+        ));
+    }
+    if ra.trace != rb.trace || ra.end != rb.end {
+        return Err(format!(
+            "choice list {choices:?}: traces differ\n  first : {} -> {:?}\n  second: {} -> {:?}",
+            ra.trace_string(),
+            ra.end,
+            rb.trace_string(),
+            rb.end
+        ));
+    }
+    if da != db {
+        return Err(format!(
+            "choice list {choices:?}: same trace, different outcome\n  first : {da}\n  second: {db}"
+        ));
+    }
+    Ok(())
+}
+
+/// Toy lost update on one shared cell guarded by the engine's own points:
+/// must be found at preemption bound 1 and must not exist at bound 0. Also
+/// checks that a visible wait blocks and that an all-blocked state is
+/// reported as a deadlock. Returns a description of what failed.
+pub fn selftest() -> Result<(), String> {
+    use anda_db_utils::verif::{point, wait_until};
+    use std::sync::atomic::{AtomicBool, AtomicU64, Ordering};
+    use std::time::Instant;
+
+    let lost_update = |ch: &mut Chooser| -> (ExecResult<()>, String) {
+        let cell = AtomicU64::new(0);
+        let body = || {
+            point("toy:load");
+            let v = cell.load(Ordering::SeqCst);
+            point("toy:store");
+            cell.store(v + 1, Ordering::SeqCst);
+        };
+        let r = run_threads(ch, vec![Box::new(body), Box::new(body)], ExecConfig::default());
+        let v = cell.load(Ordering::SeqCst);
+        (r, v.to_string())
+    };
+    for (bound, expect_lost) in [(0u32, false), (1u32, true)] {
+        let mut finals = std::collections::BTreeSet::new();
+        let stats = crate::choice::explore(
+            bound,
+            2,
+            Instant::now() + Duration::from_secs(30),
+            10_000,
+            |ch| lost_update(ch).1,
+            |_c, v| {
+                finals.insert(v);
+                true
+            },
+        );
+        let lost = finals.contains("1");
+        if stats.completed_bound != Some(bound) || lost != expect_lost || !finals.contains("2") {
+            return Err(format!(
+                "toy lost update at bound {bound}: finals {finals:?}, executions {}, expected lost={expect_lost}",
+                stats.executions
+            ));
+        }
+    }
+    check_replay(&[0, 1], &lost_update)?;
+
+    // Visible wait: thread 0 waits for a flag thread 1 sets; never a deadlock.
+    let flag = AtomicBool::new(false);
+    let mut ch = Chooser::new(vec![]);
+    let r = run_threads(
+        &mut ch,
+        vec![
+            Box::new(|| {
+                wait_until("toy:wait", &|| flag.load(Ordering::SeqCst));
+                1u8
+            }) as Body<u8>,
+            Box::new(|| {
+                point("toy:set");
+                flag.store(true, Ordering::SeqCst);
+                2u8
+            }),
+        ],
+        ExecConfig::default(),
+    );
+    if r.end != ExecEnd::AllDone || r.outputs != vec![Some(1), Some(2)] {
+        return Err(format!("visible wait: {:?} trace {}", r.end, r.trace_string()));
+    }
+    // Nobody sets the flag: deadlock, and tear-down must not hang.
+    let never = AtomicBool::new(false);
+    let mut ch = Chooser::new(vec![]);
+    let r = run_threads(
+        &mut ch,
+        vec![
+            Box::new(|| wait_until("toy:wait", &|| never.load(Ordering::SeqCst))) as Body<()>,
+            Box::new(|| point("toy:noop")),
+        ],
+        ExecConfig::default(),
+    );
+    if r.end != ExecEnd::Deadlock(vec![(0, "toy:wait")]) {
+        return Err(format!("deadlock detection: {:?}", r.end));
+    }
+    // A panicking worker is reported, the other one is torn down.
+    let mut ch = Chooser::new(vec![]);
+    let r = run_threads(
+        &mut ch,
+        vec![
+            Box::new(|| {
+                point("toy:a");
+                point("toy:b");
+            }) as Body<()>,
+            Box::new(|| {
+                point("toy:boom");
+                panic!("toy panic");
+            }),
+        ],
+        ExecConfig::default(),
+    );
+    match &r.end {
+        ExecEnd::Panic { thread: 1, message } if message.contains("toy panic") => {}
+        // thread 0 runs to completion first under the default schedule
+        other => return Err(format!("panic capture: {other:?}")),
+    }
+    Ok(())
+}
